@@ -230,6 +230,26 @@ def eval_sequence(seq: Tuple[int, ...], reader: str, tally: Tally) -> List[Viola
                         f"available: load {k} {detail}; written {msgs[k]!r}",
                         {"short": list(sched), "mode": mode, "k": k, "involved": [labels[k]]})
                     break
+    # the same through real io.BufferedReader objects of every small buffer size over a raw
+    # stream (length prefixes and fields then straddle the reader's refills)
+    for bufsize in (1, 2, 3, 5, 8, 13):
+        tally.inc("buffered_readers")
+        s = io.BufferedReader(io.BytesIO(full), buffer_size=bufsize)
+        for k, i in enumerate(seq):
+            tname, aval, _ = ALPHABET[i]
+            cls, mdef = reader_cls(bp, tname, reader)
+            try:
+                got = cls().load(s, betterproto.SIZE_DELIMITED)
+                tally.inc("edges")
+                ok = bytes(got) == bodies[k] and s.tell() == bounds[k]
+                detail = f"returned {got!r} at offset {s.tell()}"
+            except Exception as e:
+                ok = False
+                detail = f"raised {type(e).__name__}: {e}"
+            if not ok:
+                bad("buffered-reader", f"io.BufferedReader(buffer_size={bufsize}) over the intact stream: load {k} {detail}; "
+                    f"written {msgs[k]!r}", {"bufsize": bufsize, "k": k, "involved": [labels[k]]})
+                break
     # dedupe by signature within this sequence
     seen = set()
     uniq = []
@@ -264,6 +284,31 @@ class _ShortReader:
         out = self.data[self.pos:self.pos + n]
         self.pos += n
         return out
+
+    # the rest of the buffered-reader interface, with the answers io.BufferedReader may give:
+    # peek() returns AT LEAST one byte (unless at the end), possibly fewer than asked for, and
+    # does not advance; read1() is a read that may be short; readinto() fills a prefix
+    def peek(self, n: int = 0) -> bytes:
+        avail = len(self.data) - self.pos
+        k = min(max(n, 1), avail)
+        if k >= 2:
+            idx = self.calls
+            self.calls += 1
+            self.points.append(idx)
+            if idx in self.short:
+                k = 1 if self.mode == "one" else k - 1
+        return self.data[self.pos:self.pos + k]
+
+    def read1(self, n: int = -1) -> bytes:
+        return self.read(n)
+
+    def readinto(self, b) -> int:
+        got = self.read(len(b))
+        b[:len(got)] = got
+        return len(got)
+
+    def readable(self) -> bool:
+        return True
 
     def tell(self) -> int:
         return self.pos
